@@ -123,10 +123,6 @@ func (c *chk) varUnset(class string, x int) bool {
 // doAssign follows one `lhs… = rhs…`; successful assignments push what must be
 // undone onto *undo (nil for a plain set).
 func (c *chk) doAssign(g group, undo *[]item, what string) string {
-	bases := make([]slot, len(g.lvs))
-	for i, l := range g.lvs {
-		bases[i] = c.store[l.x]
-	}
 	if len(g.lvs) != len(g.vals) {
 		return "arity"
 	}
@@ -137,7 +133,8 @@ func (c *chk) doAssign(g group, undo *[]item, what string) string {
 		}
 		nv := g.vals[i]
 		if l.elem {
-			b := bases[i]
+			// element assignment works on the variable's value at the time of this Set
+			b := c.store[l.x]
 			if !b.set || !b.v.list || l.i >= len(b.v.xs) {
 				return "elemerr"
 			}
@@ -145,7 +142,7 @@ func (c *chk) doAssign(g group, undo *[]item, what string) string {
 			nv.xs[l.i] = g.vals[i].n
 			c.feat["elem "+what]++
 		}
-		if !c.varSet("", l.x, nv) {
+		if !c.varSet("assignment", l.x, nv) {
 			return fmt.Sprintf("setfail:%d", l.x)
 		}
 		if undo != nil {
